@@ -3,6 +3,19 @@
 #[derive(Clone)]
 pub struct Rng {
     s: [u64; 4],
+    /// coverage-guided mode: decisions are read from a byte string (zeros once exhausted)
+    bytes: Option<(std::rc::Rc<Vec<u8>>, usize)>,
+}
+
+thread_local! {
+    static FUZZ_BYTES: std::cell::RefCell<Option<std::rc::Rc<Vec<u8>>>> = std::cell::RefCell::new(None);
+}
+
+/// While set, every `Rng::for_case` on this thread returns a generator that reads its decisions
+/// from these bytes (used by the libFuzzer target so that mutations of the input map to local
+/// changes of the generated case).
+pub fn set_fuzz_bytes(b: Option<Vec<u8>>) {
+    FUZZ_BYTES.with(|f| *f.borrow_mut() = b.map(std::rc::Rc::new));
 }
 
 pub fn splitmix(x: &mut u64) -> u64 {
@@ -27,11 +40,27 @@ impl Rng {
     pub fn new(seed: u64) -> Self {
         let mut x = seed;
         let s = [splitmix(&mut x), splitmix(&mut x), splitmix(&mut x), splitmix(&mut x)];
-        Self { s }
+        Self { s, bytes: None }
+    }
+
+    fn take_bytes(&mut self, k: usize) -> u64 {
+        let (data, pos) = self.bytes.as_mut().expect("bytes mode");
+        let mut v = 0u64;
+        for i in 0..k {
+            let b = data.get(*pos + i).copied().unwrap_or(0);
+            v |= u64::from(b) << (8 * i);
+        }
+        *pos += k;
+        v
     }
 
     /// Independent stream for (seed, stream name, index).
     pub fn for_case(seed: u64, stream: &str, idx: u64) -> Self {
+        if let Some(b) = FUZZ_BYTES.with(|f| f.borrow().clone()) {
+            let mut r = Self::new(0);
+            r.bytes = Some((b, 0));
+            return r;
+        }
         let mut x = seed ^ fnv(stream.as_bytes()).rotate_left(17);
         let a = splitmix(&mut x);
         let mut y = a ^ idx.wrapping_mul(0xD6E8_FEB8_6659_FD93);
@@ -39,6 +68,9 @@ impl Rng {
     }
 
     pub fn next_u64(&mut self) -> u64 {
+        if self.bytes.is_some() {
+            return self.take_bytes(8);
+        }
         let r = self.s[1].wrapping_mul(5).rotate_left(7).wrapping_mul(9);
         let t = self.s[1] << 17;
         self.s[2] ^= self.s[0];
@@ -53,6 +85,10 @@ impl Rng {
     /// Uniform in 0..n (n > 0).
     pub fn below(&mut self, n: u64) -> u64 {
         debug_assert!(n > 0);
+        if self.bytes.is_some() {
+            let k = if n <= 256 { 1 } else if n <= 65_536 { 2 } else { 8 };
+            return self.take_bytes(k) % n;
+        }
         // multiply-shift; bias is irrelevant here
         ((u128::from(self.next_u64()) * u128::from(n)) >> 64) as u64
     }
